@@ -13,6 +13,15 @@ Every public method returns a `Res`.
 import collections
 import copy
 import itertools
+from collections.abc import Iterator
+
+
+def _mat(x):
+    """one-shot iterators given as member collections are read once"""
+    return list(x) if isinstance(x, Iterator) else x
+
+
+_SHAPES = (list, set, frozenset, tuple, Iterator)
 
 
 class Res:
@@ -184,7 +193,7 @@ class RefHypergraph(_Base):
         autos = []
         warn = False
         if isinstance(ebunch_to_add, dict):
-            recs = [(m, i, {}) for i, m in ebunch_to_add.items()]
+            recs = [(_mat(m), i, {}) for i, m in ebunch_to_add.items()]
             explicit = True
         else:
             try:
@@ -196,7 +205,7 @@ class RefHypergraph(_Base):
             for el in items:
                 if isinstance(el, str):
                     return ERR("string as members")
-                if isinstance(el, tuple) and el and isinstance(el[0], (list, set, frozenset, tuple)):
+                if isinstance(el, tuple) and el and isinstance(el[0], _SHAPES):
                     if len(el) == 2 and isinstance(el[1], dict):
                         recs.append((el[0], None, el[1]))
                     elif len(el) == 2:
@@ -212,7 +221,7 @@ class RefHypergraph(_Base):
                 else:
                     recs.append((el, None, {}))
         for mem, i, d in recs:
-            m = self._members(mem)
+            m = self._members(_mat(mem))
             if m is None:
                 return UNSPEC("members not an iterable of hashables")
             if not m and not isinstance(ebunch_to_add, dict) and i is None and not d:
@@ -623,7 +632,7 @@ class RefSimplicialComplex(RefHypergraph):
     def add_simplex(self, members, idx=None, **attr):
         if isinstance(members, str):
             return UNSPEC()
-        m = self._members(members)
+        m = self._members(_mat(members))
         if m is None:
             return UNSPEC()
         if None in m:
@@ -641,7 +650,7 @@ class RefSimplicialComplex(RefHypergraph):
     def add_simplices_from(self, ebunch_to_add, max_order=None, **attr):
         isdict = isinstance(ebunch_to_add, dict)
         if isdict:
-            recs = [(m, i, {}) for i, m in ebunch_to_add.items()]
+            recs = [(_mat(m), i, {}) for i, m in ebunch_to_add.items()]
         else:
             try:
                 items = list(ebunch_to_add)
@@ -651,17 +660,17 @@ class RefSimplicialComplex(RefHypergraph):
             for el in items:
                 if isinstance(el, str):
                     return ERR("string as members")
-                if isinstance(el, tuple) and el and isinstance(el[0], (list, set, frozenset, tuple)):
+                if isinstance(el, tuple) and el and isinstance(el[0], _SHAPES):
                     if len(el) == 2 and isinstance(el[1], dict):
-                        recs.append((el[0], None, el[1]))
+                        recs.append((_mat(el[0]), None, el[1]))
                     elif len(el) == 2:
-                        recs.append((el[0], el[1], {}))
+                        recs.append((_mat(el[0]), el[1], {}))
                     elif len(el) == 3:
-                        recs.append((el[0], el[1], el[2]))
+                        recs.append((_mat(el[0]), el[1], el[2]))
                     else:
                         return UNSPEC()
                 else:
-                    recs.append((el, None, {}))
+                    recs.append((_mat(el), None, {}))
             if recs and not self._members(recs[0][0]) and not recs[0][0]:
                 return UNSPEC("empty first element: format cannot be detected")
         return self._bulk(recs, max_order, attr, isdict)
